@@ -725,11 +725,12 @@ def check_C05(tier, seed):
     import concurrent.futures as cf
 
     def burst(k):
-        gmp = ["16", "4", "2", "1"][k % 4]
+        gmp = ["16", "4", "2", "1"][(k // 2) % 4]
         tr = os.path.join(v.wd, "lin_%d.ndjson" % k)
         d = os.path.join(v.wd, "st_%d" % k)
         env = dict(os.environ, VERIF_TRACE=tr, VERIF_DIR=d, VERIF_OPS=str(14 if thorough else 10),
-                   VERIF_SEED=str(seed * 100 + k), GOMAXPROCS=gmp)
+                   VERIF_SEED=str(seed * 100 + k), GOMAXPROCS=gmp, VERIF_WIDE="1" if k % 2 == 1 else "0",
+                   VERIF_OPS_WIDE=str(400 if thorough else 250))
         try:
             p = verif.subprocess.run([binary, "-test.run", "^TestConcurrency$", "-test.timeout", "0"], cwd=v.wd, env=env,
                                      capture_output=True, text=True, timeout=180)
@@ -1274,6 +1275,24 @@ def check_C18(tier, seed):
         ms_stage(v, sd, binary, "C18_" + nm + "_deep", main="m", deps=sh["deps"], ds=dss, ent=ents, contents=sh["contents"],
                  allowed=allowed, preds=("p", "q"), max_steps=8 if thorough else 7, sample=True, seed=seed,
                  fan=2, target=8000 if thorough else 1200, max_batch=2)
+    # long exhaustive histories over a narrow write alphabet: two catch-ups with several dependency changes between
+    # them (a query object reused across the changes of one page, a token that is > 0 at the second catch-up)
+    narrow = {
+        "fwd1": [("m", "m1", 1), ("m", "m2", 1), ("d", "d1", 1), ("d", "d1", 3), ("d", "d2", 4)],
+        "inv1": [("m", "m1", 3), ("m", "m2", 4), ("m", "m2", 3), ("d", "d1", 1), ("d", "d2", 2)],
+        "mixed2": [("m", "m1", 5), ("l", "l1", 1), ("d", "d1", 1), ("d", "d1", 2), ("d", "d2", 3)],
+        "inv2": [("m", "m1", 4), ("l", "l1", 3), ("l", "l2", 3), ("d", "d1", 1), ("d", "d1", 2)],
+    }
+    for nm, allowed in narrow.items():
+        sh = shapes[nm]
+        if nm in ("mixed2", "inv2"):
+            sh = dict(sh)
+            sh["deps"] = [dict(sh["deps"][0])]
+        dss = ["m", "l", "d"] if any(j["ds"] == "l" for d in sh["deps"] for j in d["joins"]) else ["m", "d"]
+        if not thorough and nm not in ("fwd1", "mixed2"):
+            continue
+        ms_stage(v, sd, binary, "C18_" + nm + "_long", main="m", deps=sh["deps"], ds=dss, ent=ents, contents=sh["contents"],
+                 allowed=allowed, preds=("p", "q"), max_steps=7 if thorough else 6, target=60000)
     v.assumptions = ["join shapes: one inverse hop, one forward hop, two inverse hops through a link dataset, forward+inverse; "
                      "dependencies declared in JSON (track_queries declarations are not exercised)",
                      "entity id pools per dataset role (main / link / dependency); batch size above the feed length "
